@@ -57,6 +57,27 @@ theorem inv_of_step (S : Sys σ ι) (Inv : σ → Prop) (h0 : Inv S.init)
     ∀ (is : List ι) (s : σ), S.run is = some s → Inv s :=
   fun is s hr => inv_from S Inv hs is S.init s h0 hr
 
+/-- **bounded runs**: if every enabled step from a state satisfying `Inv` keeps `Inv` and strictly decreases the measure `M`,
+then a schedule of length `n` lowers `M` by at least `n` — no schedule is longer than `M init` -/
+theorem bound_from (S : Sys σ ι) (Inv : σ → Prop) (M : σ → Nat)
+    (hs : ∀ s i s', Inv s → S.step s i = some s' → Inv s' ∧ M s' < M s) :
+    ∀ (is : List ι) (s s' : σ), Inv s → S.runFrom s is = some s' → is.length + M s' ≤ M s
+  | [], s, s', _, hr => by
+    simp only [runFrom, Option.some.injEq] at hr; subst hr; simp
+  | i :: is, s, s', h, hr => by
+    simp only [runFrom] at hr
+    cases hst : S.step s i with
+    | none => rw [hst] at hr; cases hr
+    | some s1 =>
+      rw [hst] at hr
+      obtain ⟨h1, hlt⟩ := hs s i s1 h hst
+      have := bound_from S Inv M hs is s1 s' h1 hr
+      simp only [List.length_cons]; omega
+
+theorem bound_of_measure (S : Sys σ ι) (Inv : σ → Prop) (M : σ → Nat) (h0 : Inv S.init)
+    (hs : ∀ s i s', Inv s → S.step s i = some s' → Inv s' ∧ M s' < M s) (is : List ι) (s : σ) (hr : S.run is = some s) :
+    is.length + M s ≤ M S.init := bound_from S Inv M hs is S.init s h0 hr
+
 /-- the same system with a guard on (state, label): labels failing the guard are not enabled -/
 def pre (S : Sys σ ι) (g : σ → ι → Bool) : Sys σ ι where
   init := S.init
